@@ -9,6 +9,16 @@ def run(ck: Check):
     ex = Explorer(ck, oracles=[oracle_c12])
     driver_universe(ex, ck, aborts=False)
     extra(ex, ck)
+    # the directory stays a log across runs on one Lithium object sharing it (C12_session_log / _no_overwrite): the
+    # check that an earlier run's numbered files survive a later run is part of session_universe itself
+    from universe import session_universe
+
+    def numbering(ck_, ctx, run_):
+        nums = sorted(int(n.split("-")[0]) for n, _, _ in run_.temp if n != "original")
+        if nums != list(range(1, len(nums) + 1)) and run_.exc not in ("Hang", "CapHit"):
+            ck_.violation(f"temp dir of a re-used Lithium object is not numbered 1..k without gaps/duplicates: {nums}",
+                          {"session": ctx.get("session"), "files": [n for n, _, _ in run_.temp]})
+    session_universe(ck, numbering, quick=ck.tier == "quick")
     ex.diff()
     return ck.finish(level="proof", rule=RULE + EXTRA_RULE, assumptions=ASSUME)
 
